@@ -88,4 +88,149 @@ def noRepeat : List Pc → Bool
   | a :: b :: rest => a != b && noRepeat (b :: rest)
   | _ => true
 
+/-! ### The call sites of `updateConnectionState`
+
+`updateConnectionState(ice, dtls)` is a function of its arguments; whether `PeerConnectionState` follows the
+transports depends on WHERE it is called and with WHICH values.  The code has three call sites
+(peerconnection.go):
+
+* `createICETransport`: the ICE transport's internal state-change handler maps the `ICETransportState` to an
+  `ICEConnectionState` (an unmapped value is logged and ignored: no store, no update), stores it
+  (`onICEConnectionStateChange`) and calls `updateConnectionState(cs, pc.dtlsTransport.State())`: the new ICE
+  state with the CURRENT DTLS state.
+* `startTransports`: after `pc.dtlsTransport.Start(...)` has returned, with or without error,
+  `updateConnectionState(pc.ICEConnectionState(), pc.dtlsTransport.State())`.  The PeerConnection registers no
+  DTLS state-change handler: `DTLSTransport.Start` first sets `connecting` (`prepareStart`, only from `new`;
+  otherwise it refuses and changes nothing) WITHOUT any update, and ends in `connected` (`completeStart`) or
+  `failed` (`failStart`, `completeStart`), which the update that follows the call picks up.
+* `close()`: sets `isClosed`, stops the DTLS transport (`Stop`: state `closed`) and calls
+  `updateConnectionState(pc.ICEConnectionState(), pc.dtlsTransport.State())`; the ICE transport's own `closed`
+  arrives through the ICE handler like any other ICE state.  A second `close()` returns early.
+
+Each action below is one such step, executed atomically (the snapshot-then-lock window inside
+`updateConnectionState` and its race with `Close` is the subject of C21's model, not of this one). -/
+
+/-- Closed flag, the two transport states as the PeerConnection reads them, the stored `connectionState` and
+    the values handed to the handler so far. -/
+structure Sys where
+  closed : Bool := false
+  ice : Ice := .new
+  dtls : Dtls := .new
+  conn : Pc := .new
+  notes : List Pc := []
+  deriving Repr, DecidableEq
+
+/-- A fresh PeerConnection. -/
+def Sys.init : Sys := {}
+
+/-- `updateConnectionState(pc.ICEConnectionState(), pc.dtlsTransport.State())` on the current values. -/
+def Sys.sync (s : Sys) : Sys :=
+  let st := update { state := s.conn, notified := s.notes } (s.closed, s.ice, s.dtls)
+  { s with conn := st.state, notes := st.notified }
+
+inductive Act
+  /-- the ICE transport reports a state: store it, update with the current DTLS state -/
+  | ice (i : Ice)
+  /-- `DTLSTransport.prepareStart`: `new → connecting`, no update of its own -/
+  | dtlsBegin
+  /-- `completeStart` (`connected`), then the update of `startTransports` -/
+  | dtlsConnected
+  /-- the DTLS start fails (`failStart` / `completeStart`: `failed`), then the update of `startTransports` -/
+  | dtlsStartFails
+  /-- `prepareStart` refuses (state is not `new`): nothing changes, `startTransports` still updates -/
+  | dtlsStartRefused
+  /-- `close()`: closed flag, DTLS transport stopped, update -/
+  | close
+  deriving Repr, DecidableEq
+
+def step (s : Sys) : Act → Sys
+  | .ice i => if i = .unknown then s else Sys.sync { s with ice := i }
+  | .dtlsBegin => if s.dtls = .new then { s with dtls := .connecting } else s
+  | .dtlsConnected => Sys.sync { s with dtls := .connected }
+  | .dtlsStartFails => Sys.sync { s with dtls := .failed }
+  | .dtlsStartRefused => Sys.sync s
+  | .close => if s.closed then s else Sys.sync { s with closed := true, dtls := .closed }
+
+def exec (s : Sys) (as : List Act) : Sys := as.foldl step s
+
+/-- States a PeerConnection can be in after any finite sequence of call-site steps. -/
+inductive Reachable : Sys → Prop
+  | init : Reachable Sys.init
+  | step {s : Sys} (a : Act) : Reachable s → Reachable (step s a)
+
+/-- The stored state after each action of a run. -/
+def history (s : Sys) : List Act → List Pc
+  | [] => []
+  | a :: as => (step s a).conn :: history (step s a) as
+
+/-- The distinct successive values of a sequence that starts after `prev`. -/
+def changes (prev : Pc) : List Pc → List Pc
+  | [] => []
+  | x :: xs => if x = prev then changes prev xs else x :: changes x xs
+
+/-- A state in which no update is outstanding.  The only step that changes an input of the aggregate without
+    updating is `dtlsBegin`; it is invisible in the aggregate unless the ICE state the PeerConnection has stored
+    is still `new` (or `closed`), i.e. unless `DTLSTransport.Start` has begun before the ICE agent's asynchronous
+    `checking`/`connected` notifications were delivered.  Such a state is not settled: those notifications are
+    still on their way, and each of them updates. -/
+def Sys.quiescent (s : Sys) : Bool :=
+  s.dtls != .connecting || s.closed || (s.ice != .new && s.ice != .closed)
+
+/-! ### The same call sites without the atomicity assumption
+
+`updateConnectionState(ice, dtls)` receives a SNAPSHOT of the transport states taken by its caller and only later
+takes `pc.mu` to compare, store and notify (re-reading nothing but `isClosed`).  Two callers can therefore
+overlap: the one with the older snapshot may reach the lock last.  `Sys2` keeps the snapshots of callers that
+have not reached the lock yet. -/
+
+structure Sys2 where
+  base : Sys := {}
+  pending : List (Ice × Dtls) := []
+  deriving Repr, DecidableEq
+
+inductive Act2
+  /-- a call-site step up to and including the evaluation of the arguments of `updateConnectionState` -/
+  | begin (a : Act)
+  /-- the caller holding the `k`-th pending snapshot takes `pc.mu`: re-read `isClosed`, compare, store, notify -/
+  | commit (k : Nat)
+  deriving Repr, DecidableEq
+
+/-- The state changes of a call-site step without its update. -/
+def prepare (s : Sys) : Act → Sys × Bool   -- (state, does an update follow)
+  | .ice i => if i = .unknown then (s, false) else ({ s with ice := i }, true)
+  | .dtlsBegin => (if s.dtls = .new then { s with dtls := .connecting } else s, false)
+  | .dtlsConnected => ({ s with dtls := .connected }, true)
+  | .dtlsStartFails => ({ s with dtls := .failed }, true)
+  | .dtlsStartRefused => (s, true)
+  | .close => if s.closed then (s, false) else ({ s with closed := true, dtls := .closed }, true)
+
+def step2 (s : Sys2) : Act2 → Sys2
+  | .begin a =>
+    let (b, upd) := prepare s.base a
+    { base := b, pending := if upd then s.pending ++ [(b.ice, b.dtls)] else s.pending }
+  | .commit k =>
+    match s.pending[k]? with
+    | none => s
+    | some (i, d) =>
+      let st := update { state := s.base.conn, notified := s.base.notes } (s.base.closed, i, d)
+      { base := { s.base with conn := st.state, notes := st.notified }, pending := s.pending.eraseIdx k }
+
+def exec2 (s : Sys2) (as : List Act2) : Sys2 := as.foldl step2 s
+
+/-- every call-site step runs to completion before the next one starts -/
+def serialize : List Act → List Act2
+  | [] => []
+  | a :: as => .begin a :: .commit 0 :: serialize as
+
+/-- What the live tier's judge demands of one settled side, as a verdict key (`none` = accepted).
+    Written from the property statement with `w3c` and `noRepeat` only (no model function). -/
+def liveVerdict (closed : Bool) (ice : Ice) (dtls : Dtls) (conn : Pc) (notes : List Pc) : Option String :=
+  if ice.named && dtls.named && !(w3c closed ice dtls == some conn) then some "not-w3c-aggregate-live"
+  else if conn == .unknown then some "not-w3c-aggregate-live"
+  else if (notes.dropWhile (· != .closed)).length > 1 then some "state-after-closed"
+  else if !noRepeat (.new :: notes) then some "notified-without-change"
+  else match notes.getLast? with
+    | some l => if l == conn then none else some "last-notification-not-current-state"
+    | none => if conn == .new then none else some "change-without-notification"
+
 end WebrtcVerif.ConnState
